@@ -4,7 +4,8 @@ import scen
 
 CAPTURED = ["", "ok\n", "line1\nline2\n", "tab\there", "cr\r\nlf", "back\\slash", 'quote"d', "\\n", "\\\n", "a\\nb",
             "\x1b[31mred\x1b[0m", "progress\r100%", "bell\x07", "nul\x00", "del\x7f", " ", "😀", "é",
-            "x" * 300, "\\u0041", "\\\\", '\\"', "\n\n", "\t", "{\"a\":1}", "[1,2]", "a,b", "a\":\"b"]
+            "x" * 300, "\\u0041", "\\\\", '\\"', "\n\n", "\t", "{\"a\":1}", "[1,2]", "a,b", "a\":\"b",
+            "C:\\new\\temp", "out\\tmp.bin", "\\u2713 ok", "a\\/b", "\\r\\n"]
 
 GLOBS = ["*", "*.c", "src/*", "a?c", "[ab]*", "[!a]*", "dir/sub/*", "foo", "foo.tar.gz", "a b", "é*"]
 PATHS = ["foo", "bar", "src/a.c", "src/b.c", "dir/sub/x", "a b", "é", "foo.tar.gz", ".hidden", "x/y/z"]
@@ -27,10 +28,10 @@ def rand_rule(rng, steps=("s0",), hostile=0.2):
         return [["CREATE", "DELETE", "MODIFY", "ALLOW", "REQUIRE", "DISALLOW"][k], pat]
     r = ["MATCH", pat]
     if rng.random() < 0.4:
-        r += ["IN", rng.choice(["src", "dir/sub", "out"]) if rng.random() > hostile else hs(rng, 1.0)]
+        r += ["IN", rng.choice(["src", "dir/sub", "out", ""]) if rng.random() > hostile else hs(rng, 1.0)]
     r += ["WITH", rng.choice(["MATERIALS", "PRODUCTS"])]
     if rng.random() < 0.4:
-        r += ["IN", rng.choice(["src", "dir/sub", "out"]) if rng.random() > hostile else hs(rng, 1.0)]
+        r += ["IN", rng.choice(["src", "dir/sub", "out", ""]) if rng.random() > hostile else hs(rng, 1.0)]
     r += ["FROM", rng.choice(list(steps)) if rng.random() > hostile else hs(rng, 1.0)]
     return r
 
